@@ -7,7 +7,7 @@ An abstract meta-model is a plain dict (JSON-able, so that it can be stored in r
                                           "enum" (payload: [enum, [literal names]]),
                                           "prim" (payload: value)
    "enums": [[name, [literal names]]],
-   "cprims": [{"name", "base", "parents": [..], "invs": [inv]}],
+   "cprims": [{"name", "base", "parents": [..], "invs": [inv]}],   (one or two parents)
    "classes": [{"name", "parents": [..], "props": [[name, type]], "invs": [inv]},
    "decl_order": [name, ...]}             optional: order of the constrained primitives and
                                           classes in the TEXT (default: cprims, classes).
@@ -199,6 +199,16 @@ def all_props(mm, cname) -> List[list]:
     return out + [list(x) for x in c["props"]]
 
 
+def unique_props(mm, cname) -> List[list]:
+    """``all_props`` without the repetitions a diamond produces (what the class really has)."""
+    out, seen = [], set()
+    for pn, pt in all_props(mm, cname):
+        if pn not in seen:
+            seen.add(pn)
+            out.append([pn, pt])
+    return out
+
+
 def ancestors_and_self(mm, cname) -> List[str]:
     c = class_by_name(mm)[cname]
     out = []
@@ -286,7 +296,7 @@ def render_source(mm) -> str:
         out += [head]
         for pn, pt in c["props"]:
             out += [f"    {pn}: {type_src(pt)}"]
-        props = all_props(mm, c["name"])
+        props = unique_props(mm, c["name"])
         required = [p for p in props if p[1][0] != "opt"]
         optional = [p for p in props if p[1][0] == "opt"]
         args = [f"{pn}: {type_src(pt)}" for pn, pt in required]
@@ -295,8 +305,13 @@ def render_source(mm) -> str:
             out += ["    pass", "", ""]
             return
         out += ["", f"    def __init__(self, {', '.join(args)}) -> None:"]
+        covered = set()
         for parent in c["parents"]:
-            pprops = all_props(mm, parent)
+            pprops = unique_props(mm, parent)
+            # in a diamond the second branch initialises nothing new: it is not called
+            if pprops and all(p[0] in covered for p in pprops):
+                continue
+            covered.update(p[0] for p in pprops)
             preq = [p for p in pprops if p[1][0] != "opt"]
             popt = [p for p in pprops if p[1][0] == "opt"]
             call_args = ", ".join(["self"] + [p[0] for p in preq + popt])
@@ -361,12 +376,12 @@ def _const(rng, wide=True):
 FLIP = {"<": ">", "<=": ">=", "==": "==", ">": "<", ">=": "<=", "!=": "!="}
 
 
-def _bound(rng, target):
+def _bound(rng, target, p_random=0.18):
     """(op, constant, side): mostly a bound that the target interval [lo, hi] satisfies
     (so that several bounds on one property are usually satisfiable, with the constants
     sitting on or next to the boundaries), sometimes an arbitrary one."""
     side = rng.choice("LR")
-    if target is None or rng.random() < 0.18:
+    if target is None or rng.random() < p_random:
         op = rng.choice(OPS[:5] if rng.random() < 0.9 else OPS)
         return op, _const(rng), side
     lo, hi = target
@@ -391,9 +406,9 @@ def _bound(rng, target):
 
 
 def _len_inv(rng, prop, guard_candidates, target=None, p_guard_same=0.3,
-             p_guard_other=0.2):
+             p_guard_other=0.2, p_random=0.18):
     """A length bound on ``prop`` with a random operator / side / guard."""
-    op, c, side = _bound(rng, target)
+    op, c, side = _bound(rng, target, p_random)
     core = ["cmp", op, len_of(self_prop(prop)), ["int", c]] if side == "L" \
         else ["cmp", op, ["int", c], len_of(self_prop(prop))]
     r = rng.random()
@@ -458,6 +473,12 @@ def _junk_inv(rng, prop, mm):
     return {"e": rng.choice(forms), "tags": []}
 
 
+def _len(_kind, prop, op, c):
+    """The unguarded invariant ``len(self.<prop>) op c`` (``prop == "self"``: ``len(self)``)."""
+    target = ["name", "self"] if prop == "self" else self_prop(prop)
+    return {"e": ["cmp", op, len_of(target), ["int", c]], "tags": [["len", prop, op, c, "L", None]]}
+
+
 def gen_model(rng, profile: str = "mixed") -> dict:
     """profile: "mixed" | "bounds" (many bounds on few properties) | "small"."""
     mm: Dict[str, Any] = {"patterns": [], "plain_fns": [], "consts": [], "enums": [],
@@ -495,10 +516,11 @@ def gen_model(rng, profile: str = "mixed") -> dict:
 
     # constrained primitives: trees, or a deep chain (depth 3..5) in which EVERY level
     # carries a recognised invariant (so that losing any ancestor is observable)
-    def cp_invariant(base, force_recognised):
+    def cp_invariant(base, force_recognised, p_random=None):
+        p_random = p_rand if p_random is None else p_random
         r = rng.random()
         if (r < 0.6 or not mm["patterns"] or base != "str") and (r < 0.85 or force_recognised):
-            op, c, side = _bound(rng, tgt_len)
+            op, c, side = _bound(rng, tgt_len, p_random)
             if force_recognised and op == "!=":
                 op = "<=" if side == "L" else ">="
                 c = max(c, (tgt_len[1] if tgt_len else 5))
@@ -514,14 +536,19 @@ def gen_model(rng, profile: str = "mixed") -> dict:
         return {"e": ["cmp", "!=", len_of(["name", "self"]), ["int", 3]], "tags": []}
 
     deep_chain = profile != "small" and rng.random() < 0.4
+    want_join = profile != "small" and rng.random() < 0.3
+    want_diamond = profile != "small" and rng.random() < 0.22
+    # models with multi-level constructions contain many bounds: keep the share of arbitrary
+    # (non-target) bounds low there, otherwise almost all of them end in an error
+    p_rand = 0.04 if (deep_chain or want_join or want_diamond) else 0.18
     chain_names: List[str] = []
     if deep_chain:
         depth = rng.choice([3, 3, 4, 5])
         base = rng.choice(["str", "str", "str", "bytearray"])
         for i in range(depth):
-            invs = [cp_invariant(base, True)]
+            invs = [cp_invariant(base, True, 0.04)]
             if rng.random() < 0.3:
-                invs.append(cp_invariant(base, False))
+                invs.append(cp_invariant(base, False, 0.04))
             mm["cprims"].append({"name": f"P{i}", "base": base,
                                  "parents": [f"P{i - 1}"] if i > 0 else [], "invs": invs})
             chain_names.append(f"P{i}")
@@ -539,55 +566,64 @@ def gen_model(rng, profile: str = "mixed") -> dict:
         invs = [cp_invariant(base, False) for _ in range(rng.choice([0, 1, 1, 2, 3]))]
         mm["cprims"].append({"name": f"P{i}", "base": base, "parents": parents, "invs": invs})
 
-    # classes
-    n_cls = {"small": rng.choice([1, 1, 2]), "bounds": rng.choice([1, 2, 3, 4, 6]),
-             "mixed": rng.choice([1, 2, 3, 4, 5, 6])}[profile]
-    prop_counter = 0
-    for i in range(n_cls):
-        parents: List[str] = []
-        if i > 0 and rng.random() < 0.8:
-            # mostly a chain; sometimes a branch
-            parents = [mm["classes"][-1]["name"] if rng.random() < 0.75
-                       else rng.choice(mm["classes"])["name"]]
-            # a second, unrelated root parent (no diamonds: C05 is another property)
-            if rng.random() < 0.1:
-                anc = set(ancestors_and_self(mm, parents[0]))
-                roots = [c["name"] for c in mm["classes"]
-                         if not c["parents"] and c["name"] not in anc
-                         and not any(c["name"] in ancestors_and_self(mm, d["name"])
-                                     for d in mm["classes"] if d["name"] != c["name"])]
-                if roots:
-                    parents.append(rng.choice(roots))
-        props = []
-        n_props = rng.choice([1, 1, 2, 3]) if (not parents or rng.random() < 0.5) else 0
-        if profile == "bounds" and not parents:
-            n_props = rng.choice([1, 2])
-        for _ in range(n_props):
-            kinds = ["str", "str", "optstr", "optstr", "bytes", "liststr"]
-            if mm["cprims"]:
-                kinds += ["cp", "cp", "optcp", "listcp"]
-            if chain_names:
-                kinds += ["cp", "cp", "cp", "optcp", "listcp", "listcp"]
-            if with_sets:
-                kinds += ["int", "str", "optstr"]
-                if mm["enums"]:
-                    kinds += ["enum", "optenum"]
-            k = rng.choice(kinds)
-            cpn = rng.choice(mm["cprims"])["name"] if mm["cprims"] else None
-            if chain_names and rng.random() < 0.75:
-                cpn = rng.choice(chain_names[-2:])
-            t = {"str": ["prim", "str"], "optstr": ["opt", ["prim", "str"]],
-                 "bytes": ["prim", "bytearray"], "liststr": ["list", ["prim", "str"]],
-                 "int": ["prim", "int"], "cp": ["our", cpn], "optcp": ["opt", ["our", cpn]],
-                 "listcp": ["list", ["our", cpn]], "enum": ["our", "E0"],
-                 "optenum": ["opt", ["our", "E0"]]}[k]
-            props.append([f"a{prop_counter}", t])
-            prop_counter += 1
-        cls = {"name": f"C{i}", "parents": parents, "props": props, "invs": []}
-        mm["classes"].append(cls)
-        avail = all_props(mm, cls["name"])
+    # constrained primitives with TWO parents: a join of two roots / chain members, or a
+    # diamond over a common ancestor; the parents' bounds are compatible or exclude each
+    # other while the join's own invariants (if any) contradict neither parent
+    join_names: List[str] = []
+    if want_join:
+        for _ in range(rng.choice([1, 1, 2])):
+            base = rng.choice(["str", "str", "bytearray"])
+            k0 = len(mm["cprims"])
+            lo_ = (tgt_len[0] if tgt_len else 2)
+            hi_ = min(tgt_len[1] if tgt_len else 9, 40)
+            grand: List[str] = []
+            same_base = [c["name"] for c in mm["cprims"] if c["base"] == base]
+            style = rng.choice(["roots", "roots", "diamond", "on-existing"])
+            if style == "diamond":
+                mm["cprims"].append({"name": f"P{k0}", "base": base, "parents": [],
+                                     "invs": [cp_invariant(base, True, 0.04)]})
+                grand = [f"P{k0}"]
+                k0 += 1
+            elif style == "on-existing" and same_base:
+                grand = [rng.choice(same_base)]
+            contradictory = rng.random() < 0.2
+            if contradictory:
+                gap = rng.choice([1, 2, 5])
+                inv_a = _len("cmp", "self", ">=", hi_ + 20 + gap)
+                inv_b = _len("cmp", "self", "<=", hi_ + 20)
+            else:
+                inv_a = _len("cmp", "self", ">=", max(0, lo_ - rng.choice([0, 1])))
+                inv_b = _len("cmp", "self", "<=", hi_ + rng.choice([0, 1, 3]))
+            if rng.random() < 0.5:
+                inv_a, inv_b = inv_b, inv_a
+            pa = {"name": f"P{k0}", "base": base, "parents": list(grand), "invs": [inv_a]}
+            pb = {"name": f"P{k0 + 1}", "base": base, "parents": list(grand), "invs": [inv_b]}
+            if mm["patterns"] and base == "str" and rng.random() < 0.5:
+                f = rng.choice(mm["patterns"])
+                pb["invs"].append({"e": ["call", f[0], [["name", "self"]]],
+                                   "tags": [["pat", "self", f[0], None]]})
+            own = []
+            r_own = rng.random()
+            if r_own < 0.25:
+                own = [_len("cmp", "self", "<=", 70)]               # contradicts neither parent
+            elif r_own < 0.4:
+                own = [cp_invariant(base, False, 0.04)]
+            pj = {"name": f"P{k0 + 2}", "base": base, "parents": [pa["name"], pb["name"]],
+                  "invs": own}
+            mm["cprims"] += [pa, pb, pj]
+            join_names.append(pj["name"])
+            if rng.random() < 0.4:
+                mm["cprims"].append({"name": f"P{k0 + 3}", "base": base, "parents": [pj["name"]],
+                                     "invs": [cp_invariant(base, False, 0.04)]
+                                     if rng.random() < 0.5 else []})
+                join_names.append(f"P{k0 + 3}")
+
+    def add_invariants(cls, n_inv=None, p_random=None):
+        p_random = p_rand if p_random is None else p_random
+        """Invariants of one class over all its (own and inherited) properties."""
+        avail = unique_props(mm, cls["name"])
         if not avail:
-            continue
+            return
         optional = [p[0] for p in avail if p[1][0] == "opt"]
         names = [p[0] for p in avail]
 
@@ -605,17 +641,18 @@ def gen_model(rng, profile: str = "mixed") -> dict:
         ints = [p[0] for p in avail if prim_of(p[1]) == "int"]
         enums = [p[0] for p in avail if beneath_optional(p[1]) == ["our", "E0"]]
         hot_prop = rng.choice(lenable) if lenable else None
-        n_inv = {"small": rng.choice([1, 2, 3]), "bounds": rng.choice([1, 2, 3, 4]),
-                 "mixed": rng.choice([0, 1, 2, 3, 4, 5])}[profile]
+        if n_inv is None:
+            n_inv = {"small": rng.choice([1, 2, 3]), "bounds": rng.choice([1, 2, 3, 4]),
+                     "mixed": rng.choice([0, 1, 2, 3, 4, 5])}[profile]
         for _ in range(n_inv):
             r = rng.random()
             guards = optional if rng.random() < 0.8 else names
             if (r < 0.5 or profile == "bounds" and r < 0.85) and lenable:
                 p = hot_prop if rng.random() < 0.7 else rng.choice(lenable)
                 if profile == "bounds":
-                    cls["invs"].append(_len_inv(rng, p, guards, tgt_len, 0.2, 0.12))
+                    cls["invs"].append(_len_inv(rng, p, guards, tgt_len, 0.2, 0.12, p_random))
                 else:
-                    cls["invs"].append(_len_inv(rng, p, guards, tgt_len))
+                    cls["invs"].append(_len_inv(rng, p, guards, tgt_len, p_random=p_random))
             elif r < 0.68 and strs and mm["patterns"]:
                 p = rng.choice(strs)
                 fs = rng.sample(mm["patterns"], min(len(mm["patterns"]), rng.choice([1, 1, 2])))
@@ -670,6 +707,98 @@ def gen_model(rng, profile: str = "mixed") -> dict:
                                         "tags": [["expect_err", "set of another type"]]})
             elif lenable or strs:
                 cls["invs"].append(_junk_inv(rng, rng.choice(lenable or strs), mm))
+
+    # classes
+    n_cls = {"small": rng.choice([1, 1, 2]), "bounds": rng.choice([1, 2, 3, 4, 6]),
+             "mixed": rng.choice([1, 2, 3, 4, 5, 6])}[profile]
+    prop_counter = 0
+    for i in range(n_cls):
+        parents: List[str] = []
+        if i > 0 and rng.random() < 0.8:
+            # mostly a chain; sometimes a branch
+            parents = [mm["classes"][-1]["name"] if rng.random() < 0.75
+                       else rng.choice(mm["classes"])["name"]]
+            # a second, unrelated root parent (no diamonds: C05 is another property)
+            if rng.random() < 0.1:
+                anc = set(ancestors_and_self(mm, parents[0]))
+                roots = [c["name"] for c in mm["classes"]
+                         if not c["parents"] and c["name"] not in anc
+                         and not any(c["name"] in ancestors_and_self(mm, d["name"])
+                                     for d in mm["classes"] if d["name"] != c["name"])]
+                if roots:
+                    parents.append(rng.choice(roots))
+        props = []
+        n_props = rng.choice([1, 1, 2, 3]) if (not parents or rng.random() < 0.5) else 0
+        if profile == "bounds" and not parents:
+            n_props = rng.choice([1, 2])
+        for _ in range(n_props):
+            kinds = ["str", "str", "optstr", "optstr", "bytes", "liststr"]
+            if mm["cprims"]:
+                kinds += ["cp", "cp", "optcp", "listcp"]
+            if chain_names or join_names:
+                kinds += ["cp", "cp", "cp", "optcp", "listcp", "listcp"]
+            if with_sets:
+                kinds += ["int", "str", "optstr"]
+                if mm["enums"]:
+                    kinds += ["enum", "optenum"]
+            k = rng.choice(kinds)
+            cpn = rng.choice(mm["cprims"])["name"] if mm["cprims"] else None
+            if chain_names and rng.random() < 0.75:
+                cpn = rng.choice(chain_names[-2:])
+            if join_names and rng.random() < 0.6:
+                cpn = rng.choice(join_names)
+            t = {"str": ["prim", "str"], "optstr": ["opt", ["prim", "str"]],
+                 "bytes": ["prim", "bytearray"], "liststr": ["list", ["prim", "str"]],
+                 "int": ["prim", "int"], "cp": ["our", cpn], "optcp": ["opt", ["our", cpn]],
+                 "listcp": ["list", ["our", cpn]], "enum": ["our", "E0"],
+                 "optenum": ["opt", ["our", "E0"]]}[k]
+            props.append([f"a{prop_counter}", t])
+            prop_counter += 1
+        cls = {"name": f"C{i}", "parents": parents, "props": props, "invs": []}
+        mm["classes"].append(cls)
+        add_invariants(cls)
+    # a diamond of classes: two branches constrain the SAME inherited property, the join
+    # inherits from both (compatible bounds / patterns / sets, or contradicting lengths)
+    if want_diamond:
+        def lenable_props(cname):
+            out_ = []
+            for pn, pt in unique_props(mm, cname):
+                bt = beneath_optional(pt)
+                base = bt[1] if bt[0] == "prim" else (
+                    cprim_by_name(mm)[bt[1]]["base"] if bt[0] == "our" and bt[1] in cprim_by_name(mm)
+                    else None)
+                if bt[0] == "list" or base in ("str", "bytearray"):
+                    out_.append(pn)
+            return out_
+        tops = [c["name"] for c in mm["classes"] if lenable_props(c["name"])]
+        if tops:
+            top = rng.choice(tops)
+            k0 = len(mm["classes"])
+            left = {"name": f"C{k0}", "parents": [top], "props": [], "invs": []}
+            right = {"name": f"C{k0 + 1}", "parents": [top], "props": [], "invs": []}
+            if rng.random() < 0.3:
+                right["props"].append([f"a{prop_counter}", ["prim", "str"]])
+                prop_counter += 1
+            join = {"name": f"C{k0 + 2}", "parents": [left["name"], right["name"]],
+                    "props": [], "invs": []}
+            for c_ in (left, right, join):
+                mm["classes"].append(c_)
+                add_invariants(c_, rng.choice([0, 1, 2]) if c_ is join else rng.choice([1, 2, 3]), 0.04)
+            shared = rng.choice(lenable_props(top))
+            lo_ = min(tgt_len[0] if tgt_len else 2, 20)
+            if rng.random() < 0.2:
+                # the two branches exclude each other; neither contradicts the join itself
+                gap = rng.choice([1, 2, 5])
+                left["invs"].append(_len("cmp", shared, ">=", lo_ + 40 + gap))
+                right["invs"].append(_len("cmp", shared, "<=", lo_ + 40))
+            else:
+                left["invs"].append(_len("cmp", shared, ">=", max(0, lo_ - rng.choice([0, 1]))))
+                right["invs"].append(_len("cmp", shared, "<=", min(tgt_len[1] if tgt_len else 9, 60)
+                                          + rng.choice([0, 1, 3])))
+            if rng.random() < 0.3:
+                deeper = {"name": f"C{k0 + 3}", "parents": [join["name"]], "props": [], "invs": []}
+                mm["classes"].append(deeper)
+                add_invariants(deeper, rng.choice([0, 1, 2]), 0.04)
     # text order: the constrained primitives are declared in any order (descendants before
     # their parents, after the classes that use them); classes stay parents-first
     if mm["cprims"] and rng.random() < (0.85 if deep_chain else 0.5):
